@@ -266,6 +266,16 @@ def _race_job(args):
             if fins and w.tasks[uid].state != fins[-1]:
                 viol('race-state-vs-announcement', '%s is %s, announced %s'
                      % (uid, w.tasks[uid].state, fins))
+        # what the pilot-end handler publishes for a task agrees with what
+        # the task ends as (other subscribers act on the publication)
+        for ch, pub, msg in w.net.pub_log[w.n_pub:]:
+            if ch == rpc.STATE_PUBSUB and msg.get('cmd') == 'update':
+                for t in msg['arg']:
+                    if t['state'] in rps.FINAL and \
+                       w.tasks[t['uid']].state != t['state']:
+                        viol('race-published-vs-state',
+                             '%s published as %s, is %s'
+                             % (t['uid'], t['state'], w.tasks[t['uid']].state))
         if w.tasks['t2'].state != rps.AGENT_EXECUTING or \
            w.tasks['t3'].state != rps.DONE:
             viol('race-bystander-changed', 't2/t3: %s' % (end,))
@@ -282,11 +292,15 @@ def _race_job(args):
     return part.dump()
 
 
-def run_race(ctx):
+def run_race(ctx, deep=True):
+    # a DONE notification against the pilot's end needs two deviations (the
+    # notification thread is stopped inside Task._update, the pilot-end
+    # handler runs, the notification thread goes on): bound 2 for those
     bound = 1 if ctx.quick else 2
-    jobs  = [(ts, nt, pe, bound) for ts in RACE_TASK_STATES
-                                 for nt in RACE_NOTIFICATION
-                                 for pe in rps.FINAL]
+    jobs  = [(ts, nt, pe, 2 if (deep and nt == rps.DONE) else bound)
+             for ts in RACE_TASK_STATES
+             for nt in RACE_NOTIFICATION
+             for pe in rps.FINAL]
     for res in seams.pmap(_race_job, jobs, ctx.workers):
         ctx.merge(res)
     ctx.set(race_delay_bound=bound)
